@@ -140,8 +140,6 @@ Definition run_n (n : ncfg) (evs : list event) : st := fold_left (step_n n) evs 
 
 (* -- on a well-typed configuration no hook raises, and the machine is the numeric one -- *)
 
-Lemma as_N_float v : int_ok v = true -> True. Proof. trivial. Qed.
-
 Lemma h_wb_before_ok v s : int_ok v = true -> h_wb_before v s = Ok (wb_n (as_N v) s).
 Proof.
   intros H. unfold h_wb_before, wb_n. rewrite H.
@@ -493,9 +491,6 @@ Proof.
   - unfold Bnd, delta. rewrite S4, S3, St, A4, A3, A2, J4, J3, J2, R4, R3, R2. cbn [is_idle state_eqb].
     rewrite njc_app. cbn [is_cont j_kind]. repeat split; auto; try lia; try (rewrite ?J4; apply F3, F2).
 Qed.
-
-Lemma bnd_ghost_t0 n s t : Bnd n s -> Bnd n (set_t0 t s).
-Proof. intros H. exact H. Qed.
 
 Lemma step_bnd n s e : Bnd n s -> Bnd n (step_n n s e).
 Proof.
